@@ -310,6 +310,52 @@ theorem seq_rt (t : Ty) (he : t.isElem = true) (hs : supported t = true) (hg : g
 
 /-! ### round trip: the mutual induction over the declaration tree -/
 
+theorem payloadRes_ok (a : VarAttr) (pos : Nat) (conv : Storage → Res Val) (x : Storage) (w : Val) (h : conv x = .ok w) :
+    payloadRes a pos conv (some x) = .ok (.unionv pos (some w)) := by
+  cases hf : a.field <;> simp [payloadRes, hf, h]
+
+theorem readNonDefault_none : ∀ (us : Variants) (pos idx : Nat) (d : Int) (m : DynData),
+    armNonDefault idx us d = none → readNonDefault pos idx us d m = none
+  | .nil, _, _, _, _, _ => by simp [readNonDefault]
+  | .unit a r, pos, idx, d, m, h => by
+    simp only [armNonDefault] at h
+    by_cases hc : (!a.isDefault && firstLabel idx a == d) = true
+    · simp [hc] at h
+    · simp only [hc, if_false, Bool.false_eq_true] at h
+      have hr : armNonDefault (idx + 1) r d = none := by
+        cases ha : armNonDefault (idx + 1) r d <;> simp [ha] at h ⊢
+      simp only [Bool.not_eq_true] at hc
+      simp [readNonDefault, hc, readNonDefault_none r (pos + 1) (idx + 1) d m hr]
+  | .data a t r, pos, idx, d, m, h => by
+    simp only [armNonDefault] at h
+    by_cases hc : (!a.isDefault && firstLabel idx a == d) = true
+    · simp [hc] at h
+    · simp only [hc, if_false, Bool.false_eq_true] at h
+      have hr : armNonDefault (idx + 1) r d = none := by
+        cases ha : armNonDefault (idx + 1) r d <;> simp [ha] at h ⊢
+      simp only [Bool.not_eq_true] at hc
+      simp [readNonDefault, hc, readNonDefault_none r (pos + 1) (idx + 1) d m hr]
+
+theorem readDefault_none : ∀ (us : Variants) (pos idx : Nat) (m : DynData),
+    lastDefault us = none → readDefault pos idx us m = none
+  | .nil, _, _, _, _ => by simp [readDefault]
+  | .unit a r, pos, idx, m, h => by
+    simp only [lastDefault] at h
+    cases hl : lastDefault r with
+    | some j => simp [hl] at h
+    | none =>
+      simp only [hl] at h
+      have ha : a.isDefault = false := by cases hd : a.isDefault <;> simp [hd] at h ⊢
+      simp [readDefault, readDefault_none r (pos + 1) (idx + 1) m hl, ha]
+  | .data a t r, pos, idx, m, h => by
+    simp only [lastDefault] at h
+    cases hl : lastDefault r with
+    | some j => simp [hl] at h
+    | none =>
+      simp only [hl] at h
+      have ha : a.isDefault = false := by cases hd : a.isDefault <;> simp [hd] at h ⊢
+      simp [readDefault, readDefault_none r (pos + 1) (idx + 1) m hl, ha]
+
 mutual
 theorem rtTy : ∀ (t : Ty), RT t
   | .prim p => by
@@ -355,11 +401,11 @@ theorem rtTy : ∀ (t : Ty), RT t
     simp [fromStorage, h2, h3, scrub, ht.2]
   | .struct hd fs => by
     intro v hs hg ht hno0
-    simp only [supported, Bool.and_eq_true] at hs
-    simp only [good, Bool.and_eq_true, memberIds] at hg
+    simp only [supported, Bool.and_eq_true, memberIds] at hs
+    simp only [good] at hg
     cases v <;> simp [hasType] at ht
     rename_i vs
-    obtain ⟨m', h1, _, h3⟩ := rtFields hd.ext hd.tuple fs vs 0 0 [] hs.2 hg.2 ht hg.1 (by intro id _; rfl)
+    obtain ⟨m', h1, _, h3⟩ := rtFields hd.ext hd.tuple fs vs 0 0 [] hs.2 hg ht hs.1.2 (by intro id _; rfl)
     refine ⟨.complex m', by simp [toStorage, h1], ?_⟩
     have := h3 [] (by intro id _; simp)
     simp only [eraseAll] at this
@@ -376,11 +422,20 @@ theorem rtTy : ∀ (t : Ty), RT t
     simp only [good, Bool.and_eq_true] at hg
     cases v <;> simp [hasType] at ht
     rename_i k p
-    obtain ⟨m, h1, h2, h3⟩ := rtVariants hd.disc us 0 0 k p hs.2 hg.2 ht
+    obtain ⟨m, h1, h2, h3, h4⟩ := rtVariants hd.disc us 0 0 k p hs.2 hg.2 ht
     have hsel := selectsFrom_get us us.length k hg.1 (hasTypeVariant_lt us k p ht)
     refine ⟨.complex m, by simp [toStorage, h1], ?_⟩
-    have := h3 _ hsel
-    simp [fromStorage, removeValue, h2, this, scrub]
+    unfold armIndex at hsel
+    cases hnd : armNonDefault 0 us (labelAt 0 us k) with
+    | some j =>
+      simp [hnd] at hsel; subst hsel
+      have := h3 _ hnd
+      simp [fromStorage, removeValue, h2, this, scrub]
+    | none =>
+      simp [hnd] at hsel
+      have h5 := readNonDefault_none us 0 0 (labelAt 0 us k) (erase m 0) hnd
+      have := h4 hsel
+      simp [fromStorage, removeValue, h2, h5, this, scrub]
 theorem rtFields (ext : Ext) (tuple : Bool) : ∀ (fs : Fields) (vs : List Val) (idx next : Nat) (m : DynData),
     supportedFields ext tuple fs = true → goodFields ext tuple fs = true → hasTypeFields fs vs = true →
     nodupNat (idsFrom ext tuple idx next fs.attrs) = true →
@@ -480,19 +535,32 @@ theorem rtFields (ext : Ext) (tuple : Bool) : ∀ (fs : Fields) (vs : List Val) 
 theorem rtVariants (disc : Prim) : ∀ (us : Variants) (idx pos k : Nat) (p : Option Val),
     supportedVariants disc idx us = true → goodVariants us = true → hasTypeVariant us k p = true →
     ∃ m, writeVariant disc idx us k p = .ok m ∧ lookup 0 m = some (.prim disc (.i (labelAt idx us k))) ∧
-      (∀ d, armIndex idx us d = some k →
-        readVariant pos idx us d (erase m 0) = .ok (.unionv (pos + k) (scrubVariant us k p)))
+      (∀ d, armNonDefault idx us d = some k →
+        readNonDefault pos idx us d (erase m 0) = some (.ok (.unionv (pos + k) (scrubVariant us k p)))) ∧
+      (lastDefault us = some k →
+        readDefault pos idx us (erase m 0) = some (.ok (.unionv (pos + k) (scrubVariant us k p))))
   | .nil, idx, pos, k, p, _, _, ht => by cases k <;> simp [hasTypeVariant] at ht
   | .unit a r, idx, pos, 0, p, _, _, ht => by
     cases p <;> simp [hasTypeVariant] at ht
-    refine ⟨setValue [] 0 (.prim disc (.i (firstLabel idx a))), by simp [writeVariant], by simp [lookup_setValue_self, labelAt], ?_⟩
-    intro d hd
-    have hc : (a.isDefault || firstLabel idx a == d) = true := by
-      simp only [armIndex] at hd
-      by_cases h : (a.isDefault || firstLabel idx a == d) = true
-      · exact h
-      · simp [h] at hd
-    simp [readVariant, hc, scrubVariant]
+    refine ⟨setValue [] 0 (.prim disc (.i (firstLabel idx a))), by simp [writeVariant], by simp [lookup_setValue_self, labelAt], ?_, ?_⟩
+    · intro d hd
+      have hc : (!a.isDefault && firstLabel idx a == d) = true := by
+        simp only [armNonDefault] at hd
+        by_cases h : (!a.isDefault && firstLabel idx a == d) = true
+        · exact h
+        · simp [h] at hd
+      simp [readNonDefault, hc, scrubVariant]
+    · intro hd
+      simp only [lastDefault] at hd
+      cases hl : lastDefault r with
+      | some j => simp [hl] at hd
+      | none =>
+        simp only [hl] at hd
+        have ha : a.isDefault = true := by
+          by_cases h : a.isDefault = true
+          · exact h
+          · simp [h] at hd
+        simp [readDefault, readDefault_none r (pos + 1) (idx + 1) _ hl, ha, scrubVariant]
   | .data a t r, idx, pos, 0, p, hs, hg, ht => by
     cases p with
     | none => simp [hasTypeVariant] at ht
@@ -501,53 +569,88 @@ theorem rtVariants (disc : Prim) : ∀ (us : Variants) (idx pos k : Nat) (p : Op
       simp only [supportedVariants, Bool.and_eq_true] at hs
       simp only [goodVariants, Bool.and_eq_true, Bool.not_eq_true'] at hg
       obtain ⟨x, hx1, hx2⟩ := rtTy t v hs.1.1 hg.1.1 ht (by simp [hg.1.2])
-      refine ⟨setValue (setValue [] 0 (.prim disc (.i (firstLabel idx a)))) (idx + 1) x, by simp [writeVariant, hx1], ?_, ?_⟩
+      have hl : lookup (idx + 1) (erase (setValue (setValue [] 0 (Storage.prim disc (Val.i (firstLabel idx a)))) (idx + 1) x) 0) = some x := by
+        rw [lookup_erase_ne _ (by omega), lookup_setValue_self]
+      refine ⟨setValue (setValue [] 0 (.prim disc (.i (firstLabel idx a)))) (idx + 1) x, by simp [writeVariant, hx1], ?_, ?_, ?_⟩
       · rw [lookup_setValue_ne _ x (by omega), lookup_setValue_self]; simp [labelAt]
       · intro d hd
-        have hc : (a.isDefault || firstLabel idx a == d) = true := by
-          simp only [armIndex] at hd
-          by_cases h : (a.isDefault || firstLabel idx a == d) = true
+        have hc : (!a.isDefault && firstLabel idx a == d) = true := by
+          simp only [armNonDefault] at hd
+          by_cases h : (!a.isDefault && firstLabel idx a == d) = true
           · exact h
           · simp [h] at hd
-        have hl : lookup (idx + 1) (erase (setValue (setValue [] 0 (Storage.prim disc (Val.i (firstLabel idx a)))) (idx + 1) x) 0) = some x := by
-          rw [lookup_erase_ne _ (by omega), lookup_setValue_self]
-        cases hf : a.field <;> simp [readVariant, hc, hl, hf, hx2, scrubVariant]
+        simp [readNonDefault, hc, hl, payloadRes_ok a pos _ x _ hx2, scrubVariant]
+      · intro hd
+        simp only [lastDefault] at hd
+        cases hld : lastDefault r with
+        | some j => simp [hld] at hd
+        | none =>
+          simp only [hld] at hd
+          have ha : a.isDefault = true := by
+            by_cases h : a.isDefault = true
+            · exact h
+            · simp [h] at hd
+          simp [readDefault, readDefault_none r (pos + 1) (idx + 1) _ hld, ha, hl, payloadRes_ok a pos _ x _ hx2, scrubVariant]
   | .unit a r, idx, pos, k + 1, p, hs, hg, ht => by
     simp only [hasTypeVariant] at ht
     simp only [supportedVariants, Bool.and_eq_true] at hs
     simp only [goodVariants] at hg
-    obtain ⟨m, h1, h2, h3⟩ := rtVariants disc r (idx + 1) (pos + 1) k p hs.2 hg ht
-    refine ⟨m, by simp [writeVariant, h1], by simp [labelAt, h2], ?_⟩
-    intro d hd
-    simp only [armIndex] at hd
-    by_cases hc : (a.isDefault || firstLabel idx a == d) = true
-    · simp [hc] at hd
-    · simp only [hc, if_false, Bool.false_eq_true] at hd
-      cases ha : armIndex (idx + 1) r d with
-      | none => simp [ha] at hd
+    obtain ⟨m, h1, h2, h3, h4⟩ := rtVariants disc r (idx + 1) (pos + 1) k p hs.2 hg ht
+    refine ⟨m, by simp [writeVariant, h1], by simp [labelAt, h2], ?_, ?_⟩
+    · intro d hd
+      simp only [armNonDefault] at hd
+      by_cases hc : (!a.isDefault && firstLabel idx a == d) = true
+      · simp [hc] at hd
+      · simp only [hc, if_false, Bool.false_eq_true] at hd
+        cases ha : armNonDefault (idx + 1) r d with
+        | none => simp [ha] at hd
+        | some j =>
+          simp [ha] at hd; subst hd
+          have := h3 d ha
+          simp only [Bool.not_eq_true] at hc
+          have e : pos + 1 + j = pos + (j + 1) := by omega
+          simp [readNonDefault, hc, this, scrubVariant, e]
+    · intro hd
+      simp only [lastDefault] at hd
+      cases hl : lastDefault r with
+      | none =>
+        simp only [hl] at hd
+        by_cases h : a.isDefault = true <;> simp [h] at hd
       | some j =>
-        simp [ha] at hd; subst hd
-        have := h3 d ha
-        simp only [Bool.not_eq_true] at hc
-        simp [readVariant, hc, this, scrubVariant]; omega
+        simp [hl] at hd; subst hd
+        have := h4 hl
+        have e : pos + 1 + j = pos + (j + 1) := by omega
+        simp [readDefault, this, scrubVariant, e]
   | .data a t r, idx, pos, k + 1, p, hs, hg, ht => by
     simp only [hasTypeVariant] at ht
     simp only [supportedVariants, Bool.and_eq_true] at hs
     simp only [goodVariants, Bool.and_eq_true] at hg
-    obtain ⟨m, h1, h2, h3⟩ := rtVariants disc r (idx + 1) (pos + 1) k p hs.2 hg.2 ht
-    refine ⟨m, by simp [writeVariant, h1], by simp [labelAt, h2], ?_⟩
-    intro d hd
-    simp only [armIndex] at hd
-    by_cases hc : (a.isDefault || firstLabel idx a == d) = true
-    · simp [hc] at hd
-    · simp only [hc, if_false, Bool.false_eq_true] at hd
-      cases ha : armIndex (idx + 1) r d with
-      | none => simp [ha] at hd
+    obtain ⟨m, h1, h2, h3, h4⟩ := rtVariants disc r (idx + 1) (pos + 1) k p hs.2 hg.2 ht
+    refine ⟨m, by simp [writeVariant, h1], by simp [labelAt, h2], ?_, ?_⟩
+    · intro d hd
+      simp only [armNonDefault] at hd
+      by_cases hc : (!a.isDefault && firstLabel idx a == d) = true
+      · simp [hc] at hd
+      · simp only [hc, if_false, Bool.false_eq_true] at hd
+        cases ha : armNonDefault (idx + 1) r d with
+        | none => simp [ha] at hd
+        | some j =>
+          simp [ha] at hd; subst hd
+          have := h3 d ha
+          simp only [Bool.not_eq_true] at hc
+          have e : pos + 1 + j = pos + (j + 1) := by omega
+          simp [readNonDefault, hc, this, scrubVariant, e]
+    · intro hd
+      simp only [lastDefault] at hd
+      cases hl : lastDefault r with
+      | none =>
+        simp only [hl] at hd
+        by_cases h : a.isDefault = true <;> simp [h] at hd
       | some j =>
-        simp [ha] at hd; subst hd
-        have := h3 d ha
-        simp only [Bool.not_eq_true] at hc
-        simp [readVariant, hc, this, scrubVariant]; omega
+        simp [hl] at hd; subst hd
+        have := h4 hl
+        have e : pos + 1 + j = pos + (j + 1) := by omega
+        simp [readDefault, this, scrubVariant, e]
 end
 
 
@@ -722,5 +825,146 @@ theorem scrubVariant_id : ∀ (us : Variants) (k : Nat) (p : Option Val), noNonS
     simp only [noNonSerVariants, Bool.and_eq_true] at hn
     simp [scrubVariant, scrubVariant_id r k p hn.2 ht]
 end
+
+/-! ### unions: distinct labels suffice, wherever the default variant stands (fix D-gen-5) -/
+
+def isDefaultAt : Variants → Nat → Bool
+  | .nil, _ => false
+  | .unit a _, 0 => a.isDefault
+  | .data a _ _, 0 => a.isDefault
+  | .unit _ r, k + 1 => isDefaultAt r k
+  | .data _ _ r, k + 1 => isDefaultAt r k
+
+theorem nodupInt_cons (x : Int) (r : List Int) : nodupInt (x :: r) = true ↔ x ∉ r ∧ nodupInt r = true := by
+  simp [nodupInt]
+
+theorem labelAt_mem : ∀ (us : Variants) (idx k : Nat), k < us.length → labelAt idx us k ∈ writtenLabels idx us
+  | .nil, _, k, h => by simp [Variants.length] at h
+  | .unit a r, idx, 0, _ => by simp [labelAt, writtenLabels]
+  | .data a t r, idx, 0, _ => by simp [labelAt, writtenLabels]
+  | .unit a r, idx, k + 1, h => by
+    simp [Variants.length] at h
+    simp [labelAt, writtenLabels, labelAt_mem r (idx + 1) k h]
+  | .data a t r, idx, k + 1, h => by
+    simp [Variants.length] at h
+    simp [labelAt, writtenLabels, labelAt_mem r (idx + 1) k h]
+
+/-- (A) a non-default variant is found by the arm scan under its own label -/
+theorem armNonDefault_self : ∀ (us : Variants) (idx k : Nat), k < us.length → isDefaultAt us k = false →
+    nodupInt (writtenLabels idx us) = true → armNonDefault idx us (labelAt idx us k) = some k
+  | .nil, _, k, h, _, _ => by simp [Variants.length] at h
+  | .unit a r, idx, 0, _, hd, _ => by simp [isDefaultAt] at hd; simp [armNonDefault, labelAt, hd]
+  | .data a t r, idx, 0, _, hd, _ => by simp [isDefaultAt] at hd; simp [armNonDefault, labelAt, hd]
+  | .unit a r, idx, k + 1, h, hd, hn => by
+    simp [Variants.length] at h
+    simp only [isDefaultAt] at hd
+    simp only [writtenLabels, nodupInt_cons] at hn
+    have hne : ¬ firstLabel idx a = labelAt (idx + 1) r k := fun e => hn.1 (e ▸ labelAt_mem r (idx + 1) k h)
+    simp [armNonDefault, labelAt, hne, armNonDefault_self r (idx + 1) k h hd hn.2]
+  | .data a t r, idx, k + 1, h, hd, hn => by
+    simp [Variants.length] at h
+    simp only [isDefaultAt] at hd
+    simp only [writtenLabels, nodupInt_cons] at hn
+    have hne : ¬ firstLabel idx a = labelAt (idx + 1) r k := fun e => hn.1 (e ▸ labelAt_mem r (idx + 1) k h)
+    simp [armNonDefault, labelAt, hne, armNonDefault_self r (idx + 1) k h hd hn.2]
+
+/-- no arm of a non-default variant accepts a label that no variant writes -/
+theorem armNonDefault_fresh : ∀ (us : Variants) (idx : Nat) (d : Int), d ∉ writtenLabels idx us → armNonDefault idx us d = none
+  | .nil, _, _, _ => rfl
+  | .unit a r, idx, d, h => by
+    simp only [writtenLabels, List.mem_cons, not_or] at h
+    have hne : ¬ firstLabel idx a = d := fun e => h.1 e.symm
+    simp [armNonDefault, hne, armNonDefault_fresh r (idx + 1) d h.2]
+  | .data a t r, idx, d, h => by
+    simp only [writtenLabels, List.mem_cons, not_or] at h
+    have hne : ¬ firstLabel idx a = d := fun e => h.1 e.symm
+    simp [armNonDefault, hne, armNonDefault_fresh r (idx + 1) d h.2]
+
+/-- (B1) the label written for a default variant is accepted by no other arm -/
+theorem armNonDefault_default : ∀ (us : Variants) (idx k : Nat), k < us.length → isDefaultAt us k = true →
+    nodupInt (writtenLabels idx us) = true → armNonDefault idx us (labelAt idx us k) = none
+  | .nil, _, k, h, _, _ => by simp [Variants.length] at h
+  | .unit a r, idx, 0, _, hd, hn => by
+    simp only [isDefaultAt] at hd
+    simp only [writtenLabels, nodupInt_cons] at hn
+    simp [armNonDefault, labelAt, hd, armNonDefault_fresh r (idx + 1) _ hn.1]
+  | .data a t r, idx, 0, _, hd, hn => by
+    simp only [isDefaultAt] at hd
+    simp only [writtenLabels, nodupInt_cons] at hn
+    simp [armNonDefault, labelAt, hd, armNonDefault_fresh r (idx + 1) _ hn.1]
+  | .unit a r, idx, k + 1, h, hd, hn => by
+    simp [Variants.length] at h
+    simp only [isDefaultAt] at hd
+    simp only [writtenLabels, nodupInt_cons] at hn
+    have hne : ¬ firstLabel idx a = labelAt (idx + 1) r k := fun e => hn.1 (e ▸ labelAt_mem r (idx + 1) k h)
+    simp [armNonDefault, labelAt, hne, armNonDefault_default r (idx + 1) k h hd hn.2]
+  | .data a t r, idx, k + 1, h, hd, hn => by
+    simp [Variants.length] at h
+    simp only [isDefaultAt] at hd
+    simp only [writtenLabels, nodupInt_cons] at hn
+    have hne : ¬ firstLabel idx a = labelAt (idx + 1) r k := fun e => hn.1 (e ▸ labelAt_mem r (idx + 1) k h)
+    simp [armNonDefault, labelAt, hne, armNonDefault_default r (idx + 1) k h hd hn.2]
+
+theorem lastDefault_none : ∀ us : Variants, defaultCount us = 0 → lastDefault us = none
+  | .nil, _ => rfl
+  | .unit a r, h => by
+    simp only [defaultCount] at h
+    have ha : a.isDefault = false := by cases hd : a.isDefault <;> simp [hd] at h ⊢
+    have hr : defaultCount r = 0 := by omega
+    simp [lastDefault, lastDefault_none r hr, ha]
+  | .data a t r, h => by
+    simp only [defaultCount] at h
+    have ha : a.isDefault = false := by cases hd : a.isDefault <;> simp [hd] at h ⊢
+    have hr : defaultCount r = 0 := by omega
+    simp [lastDefault, lastDefault_none r hr, ha]
+
+theorem isDefaultAt_count : ∀ (us : Variants) (k : Nat), isDefaultAt us k = true → 1 ≤ defaultCount us
+  | .nil, _, h => by simp [isDefaultAt] at h
+  | .unit a r, 0, h => by simp [isDefaultAt] at h; simp [defaultCount, h]
+  | .data a t r, 0, h => by simp [isDefaultAt] at h; simp [defaultCount, h]
+  | .unit a r, k + 1, h => by
+    have := isDefaultAt_count r k (by simpa [isDefaultAt] using h)
+    simp only [defaultCount]; omega
+  | .data a t r, k + 1, h => by
+    have := isDefaultAt_count r k (by simpa [isDefaultAt] using h)
+    simp only [defaultCount]; omega
+
+/-- (B2) the only default variant is the one whose `_` arm is emitted -/
+theorem lastDefault_unique : ∀ (us : Variants) (k : Nat), isDefaultAt us k = true → defaultCount us ≤ 1 → lastDefault us = some k
+  | .nil, _, h, _ => by simp [isDefaultAt] at h
+  | .unit a r, 0, h, hc => by
+    simp only [isDefaultAt] at h
+    simp only [defaultCount, h, if_true] at hc
+    simp [lastDefault, lastDefault_none r (by omega), h]
+  | .data a t r, 0, h, hc => by
+    simp only [isDefaultAt] at h
+    simp only [defaultCount, h, if_true] at hc
+    simp [lastDefault, lastDefault_none r (by omega), h]
+  | .unit a r, k + 1, h, hc => by
+    simp only [isDefaultAt] at h
+    have h1 := isDefaultAt_count r k h
+    simp only [defaultCount] at hc
+    simp [lastDefault, lastDefault_unique r k h (by omega)]
+  | .data a t r, k + 1, h, hc => by
+    simp only [isDefaultAt] at h
+    have h1 := isDefaultAt_count r k h
+    simp only [defaultCount] at hc
+    simp [lastDefault, lastDefault_unique r k h (by omega)]
+
+theorem selectsFrom_of_all (us : Variants) : ∀ n : Nat, (∀ k, k < n → armIndex 0 us (labelAt 0 us k) = some k) → selectsFrom us n = true
+  | 0, _ => rfl
+  | n + 1, h => by
+    simp only [selectsFrom, Bool.and_eq_true, beq_iff_eq]
+    exact ⟨h n (by omega), selectsFrom_of_all us n (fun k hk => h k (by omega))⟩
+
+/-- distinct written labels and at most one default (anywhere) make every variant selectable by its own label -/
+theorem selects_of_labelsDistinct (us : Variants) (h : labelsDistinct us = true) : selectsFrom us us.length = true := by
+  simp only [labelsDistinct, Bool.and_eq_true, decide_eq_true_eq] at h
+  apply selectsFrom_of_all
+  intro k hk
+  unfold armIndex
+  cases hd : isDefaultAt us k with
+  | false => simp [armNonDefault_self us 0 k hk hd h.1]
+  | true => simp [armNonDefault_default us 0 k hk hd h.1, lastDefault_unique us k hd h.2]
 
 end DustVerif.Derive
